@@ -17,6 +17,8 @@ STREAMS = [
      "Middleware.run_stack vs middleware chains (request-id, trace, Log, Debug, PopulateRequestContext, StreamCanceler, ...) in every order"),
     ("capture", "cases_capture.txt", "capture_case", "capture_mismatches",
      "Middleware.capture / sent vs ResponseCapture over httptest.ResponseRecorder and a net/http server"),
+    ("opts", "cases_opts.txt", "N * list trace_opt * bool", "opts_mismatches",
+     "Middleware.trace_options_checked vs the option constructors (panic on values outside the documented domain)"),
     ("sampler", "cases_sampler.txt", "N * Z * Z * bool", "sampler_mismatches",
      "Middleware.fixed_sample vs fixedSampler.Sample (every percentage x every draw)"),
 ]
